@@ -253,6 +253,7 @@ def main():
     seed = int(os.environ.get('VERIF_SEED', '1'))
     t0 = time.time()
     prop = importlib.import_module('props.' + pid)
+    common.FALLBACK_OK = pid in common.RULE_TABLE_INDEPENDENT
     variant = getattr(prop, 'VARIANT', 'plain')
     log = []
     violations = []      # (replay path, text)
@@ -284,6 +285,13 @@ def main():
     # ---------------- 1. proofs
     pr = check_proofs(pid, log)
     proof_broken = (not pr['ok']) or bool(pr['failed'])
+    # the syntactic tie of the hand-written model to confuse.c (diagnostic sets per function, parser state skeleton)
+    import skeleton
+    drift = skeleton.check(pid)
+    if drift:
+        pr['failed'] = pr['failed'] + ['model-code skeleton tie (tools/skeleton.py)']
+        pr['detail'] = (pr['detail'] + '\n' + '\n'.join('skeleton: ' + d for d in drift)).strip()
+        proof_broken = True
 
     # ---------------- 2/3. scenarios
     build_error = None
@@ -378,7 +386,9 @@ def main():
             checker_cmd='python3 tools/lex2coq.py /repo/src/lexer.l /repo/src/confuse.h coq && make -C coq Properties_%s.vo  (coqc 8.16.1, full .vo build)' % pid,
             trusted_base=getattr(prop, 'TRUSTED', []) + [
                 'Coq 8.16.1 kernel + vm_compute (no native_compute)',
-                'tools/lex2coq.py + tools/lex_actions.tbl (translator lexer.l -> LexRules.v)',
+                'tools/lex2coq.py + tools/lex_actions.tbl (translator lexer.l -> LexRules.v)' + (
+                    ' — lexer.l did NOT translate in this run; frozen rule table used (property independent of its content)' if common.FALLBACK_USED else ''),
+                'tools/skeleton.py (per-function diagnostic sets and the parser state skeleton of confuse.c compared with the model on every run: %s)' % ('in step' if not drift else 'DRIFT'),
                 'hand-written model coq/*.v tied to the C by the correspondence run counted below',
                 'extraction (ExtrOcamlBasic only) + ocaml/driver.ml + harness/implrun.c',
             ],
